@@ -184,7 +184,7 @@ def main():
     scns = scenrun.enumerate_scenarios(rep, "MC_XRotation", cfg(rep.tier), f"c11_{rep.tier}")
     findings = scenrun.evaluate(rep, scns, evaluate, procs=a.procs)
     scenrun.report(rep, findings, TAGS)
-    lifecycle_part(rep, a, TAGS, QUICK, THOROUGH, DEVS, quick_paths=20)
+    lifecycle_part(rep, a, TAGS, QUICK, THOROUGH, DEVS, quick_paths=20, trace_worlds=[("EOF", True, False, True), ("CPCCA", True, False, True)], trace_num=6)
     rep.exhaustive = True
     rep.extra["rule"] = "every (family, n_modes, power, spectrum class, dtype) of XRotation plus lifecycle paths through rotator fit/compute/transform/serialize"
     rep.extra["distinct_nontrivial"] = len(scns)
